@@ -515,6 +515,29 @@ Proof.
   - inversion H; subst; simpl. intros _; discriminate.
 Qed.
 
+(* ------------------------------------------------------------------ duplicates *)
+Lemma zmem_In i l : zmem i l = true <-> In (Some i) l.
+Proof.
+  unfold zmem. rewrite existsb_exists. split.
+  - intros [[y|] [H1 H2]]; [|discriminate]. apply Z.eqb_eq in H2. subst. exact H1.
+  - intros H. exists (Some i). split; [exact H|apply Z.eqb_refl].
+Qed.
+
+(* T-core 5: a job already present by identifier cannot be added twice: add raises and changes nothing *)
+Theorem no_duplicate_id : forall m j i kms kbad,
+  jid j = Some i -> In (Some i) (map jid (mem m)) -> add_job cur m j kms kbad = (m, Raised E_DUP).
+Proof.
+  intros m j i kms kbad Hi Hin. unfold add_job. rewrite Hi. apply zmem_In in Hin. rewrite Hin. reflexivity.
+Qed.
+
+
+(* adding again a sent job of the group itself — whatever gave it its identifier — is refused *)
+Lemma readd_refused m k j : nth_error (mem m) k = Some j -> sent j = true -> add_job cur m j None false = (m, Raised E_DUP).
+Proof.
+  intros Hn Hs. unfold sent in Hs. destruct (jid j) as [i|] eqn:Ei; [|discriminate].
+  apply (no_duplicate_id m j i); [exact Ei|]. rewrite <- Ei. apply in_map. eapply nth_error_In; exact Hn.
+Qed.
+
 (* the main step lemma, for EVERY operation (no admissibility condition on the jobs). With ex = true: from an exact
    file, the operation (returning or raising) leaves all jobs good and the file exact unless it reports an unwritten
    status change through the ghost flag. With ex = false: from any reachable state, identifiers and metadata on disk
@@ -523,7 +546,7 @@ Theorem step_inv ex m o m' out :
   Forall good (mem m) -> skeleton m -> DiskOk (disk m) -> (ex = true -> Exact m) -> step cur m o = (m', out) ->
   Forall good (mem m') /\ skeleton m' /\ DiskOk (disk m') /\ (ex = true -> udirty m' = false -> Exact m').
 Proof.
-  intros Hg Hk HD HS H. unfold step in H. destruct o as [|s pre kms kbad|seq|seq repl|].
+  intros Hg Hk HD HS H. unfold step in H. destruct o as [|s pre kms kbad|seq|seq repl| |k].
   - inversion H; subst; simpl. destruct HD as (l0 & Hg0 & Hs0). destruct (roundtrip_list _ _ Hg0 Hs0) as [H1 H2].
     split; [exact H2|]. split; [apply save_skeleton; exact H1|]. split; [exists l0; split; assumption|intros _ _; exact H1].
   - simpl in H.
@@ -545,6 +568,14 @@ Proof.
   - apply (launch_inv ex) in H; try assumption. destruct H as (A & B & C & D). repeat split; assumption.
   - apply (update_statuses_weak ex) in H; try assumption. destruct H as (A & B & C & D & E).
     repeat split; try assumption. intros Ex _. exact (D Ex).
+  - cbn [mem] in H.
+    assert (Hsame : (m', out) = (mkm (mem m) (disk m) (scr m) (rlog m) false, out) ->
+                    Forall good (mem m') /\ skeleton m' /\ DiskOk (disk m') /\ (ex = true -> udirty m' = false -> Exact m')).
+    { intros E. inversion E; subst; simpl. repeat split; try assumption. intros Ex _. exact (HS Ex). }
+    destruct (nth_error (mem m) k) as [j|] eqn:En; [|inversion H; subst; apply Hsame; reflexivity].
+    destruct (sent j) eqn:Es; [|inversion H; subst; apply Hsame; reflexivity].
+    rewrite (readd_refused (mkm (mem m) (disk m) (scr m) (rlog m) false) k j En Es) in H.
+    inversion H; subst. apply Hsame. reflexivity.
 Qed.
 
 (* ------------------------------------------------------------------ histories *)
@@ -637,7 +668,7 @@ Qed.
 
 Lemma calm_step_clean m o : calm_op o -> udirty (fst (step cur m o)) = false.
 Proof.
-  destruct o as [|s pre kms kbad|seq|seq repl|]; intros Hc; unfold step.
+  destruct o as [|s pre kms kbad|seq|seq repl| |k]; intros Hc; unfold step.
   - reflexivity.
   - destruct pre.
     + destruct (pre_exec (job_of_spec s) _ _) as [[j sc] lg]. apply add_job_clean. reflexivity.
@@ -645,6 +676,8 @@ Proof.
   - destruct seq; [destruct Hc|]. unfold launch. apply launch_par_clean.
   - destruct Hc.
   - unfold update_statuses. simpl. destruct (upd_loop _ _ _ _ _) as [[[[l d] sc] lg] o]. reflexivity.
+  - cbn [mem]. destruct (nth_error (mem m) k) as [j|]; [|reflexivity]. destruct (sent j); [|reflexivity].
+    apply add_job_clean. reflexivity.
 Qed.
 
 Lemma calm_quiet : forall ops m, Forall calm_op ops -> quiet m ops.
@@ -767,21 +800,6 @@ Theorem lists_disjoint j :
   (negb (sent j) && (in_statuses [SUCCESS] j || in_statuses [RUNNING; WAITING] j || in_statuses [ERROR; CANCELED] j) = false).
 Proof. unfold in_statuses. destruct (sent j), (jst j); repeat split; reflexivity. Qed.
 
-(* ------------------------------------------------------------------ duplicates *)
-Lemma zmem_In i l : zmem i l = true <-> In (Some i) l.
-Proof.
-  unfold zmem. rewrite existsb_exists. split.
-  - intros [[y|] [H1 H2]]; [|discriminate]. apply Z.eqb_eq in H2. subst. exact H1.
-  - intros H. exists (Some i). split; [exact H|apply Z.eqb_refl].
-Qed.
-
-(* T-core 5: a job already present by identifier cannot be added twice: add raises and changes nothing *)
-Theorem no_duplicate_id : forall m j i kms kbad,
-  jid j = Some i -> In (Some i) (map jid (mem m)) -> add_job cur m j kms kbad = (m, Raised E_DUP).
-Proof.
-  intros m j i kms kbad Hi Hin. unfold add_job. rewrite Hi. apply zmem_In in Hin. rewrite Hin. reflexivity.
-Qed.
-
 (* and a job whose identifier is new is appended at the end, once *)
 Theorem add_appends_once : forall m j kms kbad m',
   add_job cur m j kms kbad = (m', Returned) -> exists j', mem m' = mem m ++ [j'] /\ jid j' = jid j.
@@ -805,6 +823,244 @@ Proof.
   - exfalso. destruct Hcase as [(_ & _ & Ho)|(Hs & _ & _)]; [discriminate Ho|].
     assert (Hg' : Forall good (mem m')) by (rewrite Hm, Forall_app; split; [exact Hg|constructor; [exact Hj'|constructor]]).
     destruct (save_good _ Hg') as [d Hd]. rewrite Hd in Hs. discriminate Hs.
+Qed.
+
+(* ------------------------------------------------------------------ no identifier twice *)
+(* identifiers of the sent jobs, in order; identifiers the server will still hand out *)
+Definition jids (j : job) : list Z := match jid j with Some i => [i] | None => [] end.
+Definition sids (l : list job) : list Z := flat_map jids l.
+Definition ans_ids (a : answer) : list Z := match a with AOk i _ => [i] | _ => [] end.
+Definition scids (sc : script) : list Z := flat_map ans_ids sc.
+Definition occ (i : Z) (l : list Z) : nat := count_occ Z.eq_dec l i.
+(* how often identifier i occurs in the group plus how often the server may still issue it: never increases *)
+Definition pot (i : Z) (l : list job) (sc : script) : nat := (occ i (sids l) + occ i (scids sc))%nat.
+
+Lemma occ_app i a b : occ i (a ++ b) = (occ i a + occ i b)%nat.
+Proof. apply count_occ_app. Qed.
+Lemma sids_app a b : sids (a ++ b) = sids a ++ sids b.
+Proof. apply flat_map_app. Qed.
+Lemma sids_cons j l : sids (j :: l) = jids j ++ sids l.
+Proof. reflexivity. Qed.
+
+Lemma sids_jid l l' : map jid l = map jid l' -> sids l = sids l'.
+Proof.
+  revert l'. induction l as [|j r IH]; intros [|j' r'] H; simpl in H; try discriminate; [reflexivity|].
+  inversion H. rewrite !sids_cons. unfold jids. rewrite H1. f_equal. apply IH. assumption.
+Qed.
+
+Definition oids (l : list (option Z)) : list Z := flat_map (fun o => match o with Some i => [i] | None => [] end) l.
+Lemma sids_oids l : sids l = oids (map jid l).
+Proof. induction l as [|j r IH]; [reflexivity|]. rewrite sids_cons, IH. reflexivity. Qed.
+Lemma dids_oids dk : flat_map (fun d => match d_id d with Some i => [i] | None => [] end) dk = oids (map d_id dk).
+Proof. induction dk as [|d r IH]; [reflexivity|]. simpl. rewrite IH. reflexivity. Qed.
+
+Lemma pop_occ sc a sc' i : pop sc = (a, sc') -> occ i (scids sc) = (occ i (ans_ids a) + occ i (scids sc'))%nat.
+Proof.
+  destruct sc as [|a0 t]; simpl; intros H; inversion H; subst; [reflexivity|].
+  unfold scids. simpl. apply occ_app.
+Qed.
+
+Lemma poll_occ j sc r sc' i : poll j sc = (r, sc') -> (occ i (scids sc') <= occ i (scids sc))%nat.
+Proof.
+  unfold poll. destruct (pop sc) as [a sc1] eqn:Ep. pose proof (pop_occ _ _ _ i Ep) as Ho.
+  destruct a; [|destruct (Nat.eqb _ _)|]; intros H; inversion H; subst; lia.
+Qed.
+
+Lemma upd_loop_ids : forall post pre dk sc lg l' dk' sc' lg' o,
+  upd_loop pre post dk sc lg = (l', dk', sc', lg', o) ->
+  map jid l' = map jid (pre ++ post) /\ forall i, (occ i (scids sc') <= occ i (scids sc))%nat.
+Proof.
+  induction post as [|j post IH]; intros pre dk sc lg l' dk' sc' lg' o H; simpl in H.
+  - inversion H; subst. rewrite app_nil_r. split; [reflexivity|intros; lia].
+  - assert (Hrep : forall s e, map jid (pre ++ restat j s e :: post) = map jid (pre ++ j :: post))
+      by (intros; rewrite !map_app; reflexivity).
+    destruct (polls j).
+    + destruct (poll j sc) as [r sc1] eqn:Epoll.
+      destruct (poll_restat _ _ _ _ Epoll) as [[s [e ->]]|[e ->]].
+      * assert (Hgo : forall d, upd_loop (pre ++ [restat j s e]) post d sc1 (lg ++ [RStatus (jid j)]) = (l', dk', sc', lg', o) ->
+                       map jid l' = map jid (pre ++ j :: post) /\ forall i, (occ i (scids sc') <= occ i (scids sc))%nat).
+        { intros d Hd. destruct (IH _ _ _ _ _ _ _ _ _ Hd) as [A B]. rewrite app_cons_assoc in A. rewrite A, Hrep.
+          split; [reflexivity|]. intros i. specialize (B i). pose proof (poll_occ _ _ _ _ i Epoll). lia. }
+        destruct (changed j (restat j s e)).
+        -- destruct (save (pre ++ restat j s e :: post)) as [d|].
+           ++ eapply Hgo; exact H.
+           ++ inversion H; subst. rewrite Hrep. split; [reflexivity|]. intros i. apply (poll_occ _ _ _ _ i Epoll).
+        -- eapply Hgo; exact H.
+      * inversion H; subst. rewrite Hrep. split; [reflexivity|]. intros i. apply (poll_occ _ _ _ _ i Epoll).
+    + destruct (IH _ _ _ _ _ _ _ _ _ H) as [A B]. rewrite app_cons_assoc in A. split; assumption.
+Qed.
+
+Lemma wait_loop_occ : forall fuel j sc lg j' sc' lg' o i,
+  wait_loop fuel j sc lg = (j', sc', lg', o) -> (occ i (scids sc') <= occ i (scids sc))%nat.
+Proof.
+  induction fuel as [|f IH]; intros j sc lg j' sc' lg' o i H; simpl in H.
+  - inversion H; subst. lia.
+  - destruct (polls j); [|inversion H; subst; lia].
+    destruct (poll j sc) as [r sc1] eqn:Ep. pose proof (poll_occ _ _ _ _ i Ep).
+    destruct r; [|inversion H; subst; assumption]. specialize (IH _ _ _ _ _ _ _ i H). lia.
+Qed.
+
+Definition lres_pot (post : list job) (r : lres) (i : Z) (bound : nat) : Prop :=
+  match r with
+  | LCont pre' app' _ sc' _ _ => (pot i (pre' ++ post ++ app') sc' <= bound)%nat
+  | LStop m _ => (pot i (mem m) (scr m) <= bound)%nat
+  end.
+
+Lemma occ_nil i : occ i [] = 0%nat. Proof. reflexivity. Qed.
+Ltac norm := unfold pot in *; repeat rewrite ?sids_app, ?sids_cons, ?occ_app in *;
+  change (sids []) with (@nil Z) in *; repeat rewrite ?app_nil_r, ?occ_app, ?occ_nil in *.
+
+Lemma jids_restat j s e : jids (restat j s e) = jids j. Proof. reflexivity. Qed.
+
+Lemma launched_pot rerun seq repl pre post app dk dirty old x sc lg i :
+  lres_pot post (launched rerun seq repl pre post app dk dirty old x sc lg) i
+    ((if rerun && negb repl then occ i (jids old) else 0) + occ i (sids (pre ++ post ++ app)) + occ i (jids x)
+     + occ i (scids sc))%nat.
+Proof.
+  unfold launched, place. destruct (rerun && negb repl).
+  - destruct (save ((pre ++ [old]) ++ post ++ app ++ [x])); [|simpl; norm; simpl; lia].
+    destruct seq; [|simpl; norm; simpl; lia].
+    destruct (wait_loop (Datatypes.S (length sc)) x sc lg) as [[[x' sc2] lg2] o] eqn:Ew.
+    destruct (wait_loop_restat _ _ _ _ _ _ _ _ Ew) as [s [e ->]]. pose proof (wait_loop_occ _ _ _ _ _ _ _ _ i Ew).
+    destruct o; [destruct (save _)|]; simpl; norm; rewrite ?jids_restat; simpl; lia.
+  - destruct (save ((pre ++ [x]) ++ post ++ app)); [|simpl; norm; simpl; lia].
+    destruct seq; [|simpl; norm; simpl; lia].
+    destruct (wait_loop (Datatypes.S (length sc)) x sc lg) as [[[x' sc2] lg2] o] eqn:Ew.
+    destruct (wait_loop_restat _ _ _ _ _ _ _ _ Ew) as [s [e ->]]. pose proof (wait_loop_occ _ _ _ _ _ _ _ _ i Ew).
+    destruct o; [destruct (save _)|]; simpl; norm; rewrite ?jids_restat; simpl; lia.
+Qed.
+
+Lemma rerun_after_status_pot seq repl pre j s e post app dk sc lg dirty i :
+  lres_pot post (rerun_after_status cur seq repl pre j (restat j s e) post app dk sc lg dirty) i
+           (pot i (pre ++ j :: post ++ app) sc).
+Proof.
+  unfold rerun_after_status, lstop. destruct (failed _); [|simpl; norm; rewrite ?jids_restat; simpl; lia].
+  destruct (eff_body _) as [b|]; [|simpl; norm; rewrite ?jids_restat; simpl; lia].
+  rewrite restat_jid. destruct (jid j) as [i0|] eqn:Ei; [|simpl; norm; rewrite ?jids_restat; simpl; lia].
+  destruct (pop sc) as [a sc2] eqn:Ep. pose proof (pop_occ _ _ _ i Ep) as Ho.
+  destruct a as [i' s'| |]; try (simpl; norm; rewrite ?jids_restat; simpl in *; lia).
+  pose proof (launched_pot true seq repl pre post app dk (dirty || changed j (restat j s e)) (restat j s e)
+                           (rerun_job cur (restat j s e) b i') sc2 (lg ++ [RRerun (Some i0)]) i) as Hl.
+  destruct (launched true seq repl pre post app dk _ (restat j s e) (rerun_job cur (restat j s e) b i') sc2 _);
+    simpl in *; norm; rewrite ?jids_restat in *; unfold rerun_job, from_disk, jids in *; simpl in *;
+    destruct (negb repl); simpl in *; lia.
+Qed.
+
+Lemma launch_one_pot rerun seq repl pre j post app dk sc lg dirty i :
+  lres_pot post (launch_one cur rerun seq repl pre j post app dk sc lg dirty) i (pot i (pre ++ j :: post ++ app) sc).
+Proof.
+  unfold launch_one, lstop. destruct rerun.
+  - destruct (polls j).
+    + destruct (poll j sc) as [r sc1] eqn:Epoll. pose proof (poll_occ _ _ _ _ i Epoll).
+      destruct (poll_restat _ _ _ _ Epoll) as [[s [e ->]]|[e ->]].
+      * pose proof (rerun_after_status_pot seq repl pre j s e post app dk sc1 (lg ++ [RStatus (jid j)]) dirty i) as Hr.
+        destruct (rerun_after_status cur seq repl pre j (restat j s e) post app dk sc1 _ dirty); simpl in *; norm; lia.
+      * simpl. norm. rewrite ?jids_restat. lia.
+    + rewrite <- (restat_self j) at 2. apply rerun_after_status_pot.
+  - destruct (sent j) eqn:Es; [simpl; norm; lia|].
+    assert (Hj : jids j = []) by (unfold jids, sent in *; destruct (jid j); [discriminate|reflexivity]).
+    destruct (negb (waiting (jst j))); [simpl; norm; lia|].
+    destruct (eff_body j) as [b|]; [|simpl; norm; unfold jids in *; simpl; lia].
+    destruct (pop sc) as [a sc1] eqn:Ep. pose proof (pop_occ _ _ _ i Ep) as Ho.
+    destruct a as [i' s'| |]; try (simpl; norm; unfold jids in *; simpl in *; lia).
+    pose proof (launched_pot false seq repl pre post app dk dirty j (set_st (set_id j i') WAITING) sc1 (lg ++ [RCreate b]) i) as Hl.
+    destruct (launched false seq repl pre post app dk dirty j (set_st (set_id j i') WAITING) sc1 _);
+      simpl in *; norm; unfold jids in *; simpl in *; rewrite ?Hj in *; simpl in *; lia.
+Qed.
+
+Lemma launch_loop_pot rerun seq repl i : forall post pre app dk sc lg dirty m o,
+  launch_loop cur rerun seq repl pre post app dk sc lg dirty = (m, o) ->
+  (pot i (mem m) (scr m) <= pot i (pre ++ post ++ app) sc)%nat.
+Proof.
+  induction post as [|j post IH]; intros pre app dk sc lg dirty m o H; simpl in H.
+  - inversion H; subst; simpl. lia.
+  - pose proof (launch_one_pot rerun seq repl pre j post app dk sc lg dirty i) as H1.
+    destruct (launch_one cur rerun seq repl pre j post app dk sc lg dirty) as [pre' app' dk' sc' lg' d'|m' o'].
+    + specialize (IH _ _ _ _ _ _ _ _ H). unfold lres_pot in H1. change ((j :: post) ++ app) with (j :: post ++ app). lia.
+    + inversion H; subst. exact H1.
+Qed.
+
+Lemma update_statuses_pot m m' o i : update_statuses m = (m', o) -> (pot i (mem m') (scr m') <= pot i (mem m) (scr m))%nat.
+Proof.
+  unfold update_statuses. destruct (upd_loop [] (mem m) (disk m) (scr m) (rlog m)) as [[[[l d] sc] lg] o'] eqn:E.
+  intros H; inversion H; subst; simpl. destruct (upd_loop_ids _ _ _ _ _ _ _ _ _ _ E) as [A B].
+  unfold pot. rewrite (sids_jid _ _ A). simpl. specialize (B i). lia.
+Qed.
+
+Lemma add_job_pot m j kms kbad m' o i : add_job cur m j kms kbad = (m', o) ->
+  (pot i (mem m') (scr m') <= pot i (mem m) (scr m) + occ i (jids j))%nat.
+Proof.
+  unfold add_job. destruct (match jid j with Some i0 => zmem i0 (map jid (mem m)) | None => false end);
+    [intros H; inversion H; subst; lia|].
+  cbn [add_validates cur orb]. destruct (handle_params j kms kbad) as [j'|] eqn:Eh; [|intros H; inversion H; subst; lia].
+  destruct (eff_body j'); [|intros H; inversion H; subst; lia].
+  destruct (handle_params_keeps _ _ _ _ Eh) as [Hi _].
+  assert (Hj : jids j' = jids j) by (unfold jids; rewrite Hi; reflexivity).
+  destruct (save (mem m ++ [j'])); intros H; inversion H; subst; simpl; norm; rewrite Hj; simpl; lia.
+Qed.
+
+(* every operation: the occurrences of an identifier in the group plus the times the server may still issue it never increase *)
+Theorem step_pot m o m' out i : skeleton m -> step cur m o = (m', out) ->
+  (pot i (mem m') (scr m') <= pot i (mem m) (scr m))%nat.
+Proof.
+  intros Hk H. unfold step in H. destruct o as [|s pre kms kbad|seq|seq repl| |k].
+  - inversion H; subst; simpl. unfold pot. rewrite (sids_jid (load cur (disk m)) (mem m)); [lia|].
+    unfold skeleton in Hk. unfold load. rewrite map_map.
+    assert (E : map fst (map (fun d => (d_id d, d_meta d)) (disk m)) = map fst (map (fun j => (jid j, jmeta j)) (mem m)))
+      by (rewrite Hk; reflexivity).
+    rewrite !map_map in E. simpl in E. transitivity (map d_id (disk m)); [|exact E]. apply map_ext. intros d.
+    unfold from_disk. destruct (d_st d) as [[]|]; destruct (d_body d); reflexivity.
+  - simpl in H. destruct pre.
+    + destruct (pre_exec (job_of_spec s) (scr m) (rlog m)) as [[j sc] lg] eqn:Ep.
+      apply (add_job_pot _ _ _ _ _ _ i) in H. simpl in H. unfold pre_exec in Ep.
+      destruct (eff_body (job_of_spec s)).
+      * destruct (pop (scr m)) as [a sc1] eqn:Epop. pose proof (pop_occ _ _ _ i Epop) as Ho.
+        destruct a; inversion Ep; subst; unfold pot, jids in *; simpl in *; lia.
+      * inversion Ep; subst. unfold pot, jids in *; simpl in *; lia.
+    + apply (add_job_pot _ _ _ _ _ _ i) in H. unfold pot, jids in *; simpl in *; lia.
+  - unfold launch in H. apply (launch_loop_pot _ _ _ i) in H. simpl in H. rewrite app_nil_r in H. exact H.
+  - unfold launch in H. destruct (update_statuses _) as [m1 o1] eqn:Eu.
+    apply (update_statuses_pot _ _ _ i) in Eu. simpl in Eu.
+    destruct o1; [|inversion H; subst; exact Eu].
+    apply (launch_loop_pot _ _ _ i) in H. simpl in H. rewrite app_nil_r in H. lia.
+  - apply (update_statuses_pot _ _ _ i) in H. exact H.
+  - cbn [mem] in H. destruct (nth_error (mem m) k) as [j|] eqn:En; [|inversion H; subst; simpl; lia].
+    destruct (sent j) eqn:Es; [|inversion H; subst; simpl; lia].
+    rewrite (readd_refused (mkm (mem m) (disk m) (scr m) (rlog m) false) k j En Es) in H. inversion H; subst; simpl; lia.
+Qed.
+
+Lemma run_pot : forall ops m i, Forall good (mem m) -> skeleton m -> DiskOk (disk m) ->
+  (pot i (mem (run cur m ops)) (scr (run cur m ops)) <= pot i (mem m) (scr m))%nat.
+Proof.
+  induction ops as [|o r IH]; intros m i Hg Hk HD; simpl; [lia|].
+  destruct (step cur m o) as [m' out] eqn:E. simpl.
+  destruct (step_inv false m o m' out Hg Hk HD) as (A & B & C & _); [intros Hn; discriminate Hn|exact E|].
+  pose proof (step_pot m o m' out i Hk E). specialize (IH m' i A B C). lia.
+Qed.
+
+(* T-core 5c: if the server never issues the same identifier twice, then after every operation of every history
+   (returning or raising) no identifier appears twice in the group, in memory or on disk — whatever gave the job
+   its identifier (sent before add, launched by the group, created by a re-run with or without replacement,
+   reloaded) *)
+Theorem no_identifier_twice : forall sc ops, NoDup (scids sc) ->
+  let m := run cur (init sc) ops in
+  NoDup (sids (mem m)) /\ NoDup (flat_map (fun d => match d_id d with Some i => [i] | None => [] end) (disk m)).
+Proof.
+  intros sc ops Hnd m.
+  destruct (init_good sc) as [Hg HS].
+  pose proof (run_weak ops (init sc) Hg (Exact_skeleton _ HS) (Exact_DiskOk _ Hg HS)) as (_ & Hk & _). fold m in Hk.
+  assert (Hmem : NoDup (sids (mem m))).
+  { apply (NoDup_count_occ Z.eq_dec). intros i.
+    pose proof (run_pot ops (init sc) i Hg (Exact_skeleton _ HS) (Exact_DiskOk _ Hg HS)) as Hp. fold m in Hp.
+    unfold pot in Hp. simpl in Hp. pose proof (proj1 (NoDup_count_occ Z.eq_dec (scids sc)) Hnd i) as Hs.
+    unfold occ in *. lia. }
+  split; [exact Hmem|].
+  replace (flat_map (fun d => match d_id d with Some i => [i] | None => [] end) (disk m)) with (sids (mem m)); [exact Hmem|].
+  unfold skeleton in Hk.
+  assert (E : map fst (map (fun d => (d_id d, d_meta d)) (disk m)) = map fst (map (fun j => (jid j, jmeta j)) (mem m)))
+    by (rewrite Hk; reflexivity).
+  rewrite !map_map in E. simpl in E.
+  rewrite sids_oids, dids_oids. f_equal. symmetry. exact E.
 Qed.
 
 (* ------------------------------------------------------------------ witnesses *)
